@@ -518,7 +518,9 @@ pub fn run(ctx: &mut Ctx) {
         let mut hard_left = 3;
         for g in 0..=s.len() {
             while ctx.rng.below(100) < pct {
-                let mut f = *ctx.rng.pick(&[Item::WouldBlock, Item::WouldBlock, Item::Interrupted, Item::Other, Item::EofOnce]);
+                // (a transient end-of-file indication followed by more data is not scripted here: whether a reader
+                // resumes or latches the end of input afterwards is not prescribed by the property)
+                let mut f = *ctx.rng.pick(&[Item::WouldBlock, Item::WouldBlock, Item::Interrupted, Item::Other]);
                 if src == Src::Eh && matches!(f, Item::Interrupted | Item::EofOnce) {
                     continue;
                 }
@@ -562,7 +564,7 @@ pub fn floors() -> Vec<String> {
 
 pub const RULE: &str = "cases = fault scripts: a byte stream with faults placed between bytes, then permanent end of input. Enumerated exhaustively on 12 short streams that visit every decoder phase: \
 end of input at every position; every single fault (every inter-byte position x WouldBlock / Interrupted / Other); runs of 2..3 faults at one position; every pair of positions x 9 kind pairs \
-(quick: distance <= 8); plus random scripts (fault probability 1..30 % per gap, incl. transient EOF) over random streams. Injectors: std::io::Read (default / Vec / ArrayBuf buffers) and embedded_hal::serial::Read; \
+(quick: distance <= 8); plus random scripts (fault probability 1..30 % per gap) over random streams. Injectors: std::io::Read (default / Vec / ArrayBuf buffers) and embedded_hal::serial::Read; \
 APIs read / next / read_nb / next_nb and mixes; targets DecodedBytes / File / Parser. Checker: the observed sequence must equal the fault-free results of the same reader merged with one would-block per scripted WouldBlock \
 (Interrupted invisible), an Other error must carry exactly the unreported byte count (also checked by the tiling rule) and the rest must equal what a NEW reader yields on the remaining script; at end of input next() is None iff nothing is pending and stays None. \
 Distinct/non-trivial = distinct (fault kind, decoder phase at the moment the fault was delivered) pairs (phase from the read-only hook, evidence only)";
